@@ -14,7 +14,7 @@ def frameStr (f : Frame) : String :=
   s!"{f.stream}/{f.opcode.toNat}/{f.flags.toNat}/{toHex f.body}"
 
 def tailStr : Tail → String
-  | .clean => "clean"
+  | .boundary => "boundary"
   | .cutInHeader n => s!"cutInHeader:{n}"
   | .cutInBody m l => s!"cutInBody:{m}:{l}"
   | .badHeader .frameFromClient => "bad:FrameFromClient"
